@@ -165,7 +165,19 @@ fn add_vs_add_hashed(b: usize, r: &mut FastRng, rep: &mut Report) {
                     return Some(("C17/add-vs-add_hashed".into(), format!("add(\"{}\") differs from add_hashed(hash_one(..)) under {}", s, bh.name())));
                 }
             }
-            // registers must equal the reference over the hashes
+            // Extend (by value and by reference) is a loop of add()
+            let ks: Vec<u64> = (0..300u64).map(|i| base.wrapping_mul(i + 1)).collect();
+            let mut e1: HyperLogLog<u64> = HyperLogLog::new(b);
+            let mut e2: HyperLogLog<u64> = HyperLogLog::new(b);
+            let mut e3: HyperLogLog<u64> = HyperLogLog::new(b);
+            e1.extend(ks.iter().copied().filter(|k| k % 5 != 0));
+            e2.extend(ks.iter().filter(|k| *k % 5 != 0));
+            for k in ks.iter().filter(|k| *k % 5 != 0) {
+                e3.add(k);
+            }
+            if e1 != e3 || e2 != e3 {
+                return Some(("C17/extend-differs-from-adds".into(), "extend() (by value or by reference) gives different registers than the same elements through add()".into()));
+            }
             None
         });
         rep.evaluations += 800;
